@@ -3,8 +3,8 @@
 package main
 
 import (
-	"encoding/json"
 	"context"
+	"encoding/json"
 	"strings"
 	"time"
 
